@@ -58,6 +58,23 @@ pub struct Profile {
     pub max_events: u32,
     pub sweep_every: u32,
     pub claim_probes: bool,
+    /// supplementary run (index >= run::SUPP_BASE): the additions of round 9, kept out of the ordinary index range so that
+    /// every earlier run is unchanged
+    pub supp: bool,
+}
+
+/// multipliers of widely used multiplicative / finaliser hashes (Fibonacci, splitmix64, murmur3 fmix64, xorshift*, FxHash, PCG)
+pub const MULT_CONSTS: [u64; 8] = [
+    0x9E37_79B9_7F4A_7C15, 0xBF58_476D_1CE4_E5B9, 0x94D0_49BB_1331_11EB, 0xFF51_AFD7_ED55_8CCD, 0xC4CE_B9FE_1A85_EC53,
+    0x2545_F491_4F6C_DD1D, 0x517C_C1B7_2722_0A95, 0x5851_F42D_4C95_7F2D,
+];
+/// inverse of an odd number modulo 2^64 (Newton iteration)
+pub fn inv_mod_2_64(c: u64) -> u64 {
+    let mut x = c;
+    for _ in 0..6 {
+        x = x.wrapping_mul(2u64.wrapping_sub(c.wrapping_mul(x)));
+    }
+    x
 }
 
 pub const ALL_NET: &[&str] = &[
@@ -81,6 +98,7 @@ pub fn profile_for(prop: usize, fi: bool) -> Profile {
         max_events: 900,
         sweep_every: 0,
         claim_probes: false,
+        supp: false,
     };
     match prop {
         10 => {
@@ -531,7 +549,27 @@ impl World {
 
     fn start(&mut self) -> Result<(), End> {
         let cls = if self.cfg.long_then_mate && self.rng.chance(3, 4) { 3 } else { self.rng.weighted(&self.prof.start_w) };
+        let cls = if self.prof.supp && [8usize, 14].contains(&self.prof.prop) { 99 } else { cls };
         let (pos, name): (Pos, &'static str) = match cls {
+            99 => {
+                // supplementary runs (round 9 of DESIGN section 19)
+                if self.prof.prop == 8 {
+                    // an edge-file double push is still to be PLAYED, with enemy pawns on the squares a one-bit shift wraps to
+                    gen::pattern_with(&mut self.rng, Some(25))
+                } else {
+                    // a double push that uncovers a slider check beside an enemy pawn; three times out of four the start
+                    // position is the one right after the push (en-passant state set, side to move in check)
+                    let (mut p, n) = gen::pattern_with(&mut self.rng, Some(22));
+                    if self.rng.chance(3, 4) {
+                        let pushes: Vec<Mv> = p.legal_moves().into_iter().filter(|m| p.is_double_push(*m) && p.make(*m).ep.is_some()).collect();
+                        if !pushes.is_empty() {
+                            let m = *self.rng.pick(&pushes);
+                            p = p.make(m);
+                        }
+                    }
+                    (p, n)
+                }
+            }
             0 => {
                 // the move-number field selects the constructor the server uses (Game::new / new_with_board(Board::default()) / from_str)
                 let mut p = Pos::initial();
@@ -1610,6 +1648,17 @@ impl World {
                 let i = self.rng.usize(64);
                 self.used_keys[i] = alias_key;
             }
+            // supplementary runs: pairs of keys related through the inverse of a well-known multiplicative-hash constant
+            // (h and h + size * c^-1 share the slot AND every multiplicative tag folded from h * c)
+            let alias_key = if self.prof.supp && self.rng.chance(1, 3) {
+                let c = *self.rng.pick(&MULT_CONSTS);
+                let inv = inv_mod_2_64(c);
+                let step = size.max(1).wrapping_mul(inv).wrapping_mul(1 + self.rng.below(3));
+                let base = if !self.used_keys.is_empty() && self.rng.chance(3, 4) { *self.rng.pick(&self.used_keys) } else { 0 };
+                if self.rng.chance(1, 2) { base.wrapping_add(step) } else { base.wrapping_sub(step) }
+            } else {
+                alias_key
+            };
             let here_alias = if self.rng.chance(1, 2) { 0 } else { (self.rng.next_u64() >> 8) << self.cfg.table_log2.max(1) };
             let val = *self.rng.pick(&[0u8, 0, 0, 0, 1, 1, 2, 3, 3, 4]);
             match self.rng.below(8) {
@@ -1998,6 +2047,30 @@ impl World {
                 for _ in 0..n {
                     let m = Mv::new(self.rng.below(64) as u8, self.rng.below(64) as u8, *self.rng.pick(&crate::oracle::ALL_PROMOS));
                     let base = m.uci();
+                    if self.prof.supp && self.rng.chance(1, 2) {
+                        // a last-rank pawn step written the way GUIs, SAN and long algebraic notation write promotions
+                        let white = self.rng.chance(1, 2);
+                        let f = self.rng.below(8) as i32;
+                        let g = (f + *self.rng.pick(&[-1i32, 0, 0, 1])).clamp(0, 7);
+                        let (r1, r2) = if white { ('7', '8') } else { ('2', '1') };
+                        let (a, b) = (format!("{}{}", (b'a' + f as u8) as char, r1), format!("{}{}", (b'a' + g as u8) as char, r2));
+                        let l = *self.rng.pick(&["q", "r", "b", "n", "Q", "R", "B", "N", "k", "p", ""]);
+                        let t = match self.rng.below(12) {
+                            0 | 1 => format!("{}{}={}", a, b, l),
+                            2 => format!("{}{}({})", a, b, l),
+                            3 => format!("{}{}/{}", a, b, l),
+                            4 => format!("{}-{}{}", a, b, l),
+                            5 => format!("{}x{}{}", a, b, l),
+                            6 => format!("{}{} {}", a, b, l),
+                            7 => format!("{}{}{}+", a, b, l),
+                            8 => format!("{}{}{}#", a, b, l),
+                            9 => format!("{}{}:{}", a, b, l),
+                            10 => format!("{}{}={}+", a, b, l),
+                            _ => format!("{}{}{}{}", a, b, l, l),
+                        };
+                        self.op(Op::DecodeUci { text: t })?;
+                        continue;
+                    }
                     match self.rng.below(11) {
                         8 => {
                             // a file letter (or a square and a file letter) followed by an arbitrary scalar
